@@ -174,7 +174,9 @@ Assign(m, x, v) ==
 FnReturn(m, v) ==
   LET t == CurThread(m)
       a == Head(t)
-      m1 == SetThread([m EXCEPT !.out = O!TrimFunctionEnd(m.out, a.fnStart0)], Tail(t))
+      \* (trimmed back to where the function started, or - once the function has printed real text, which ends the
+      \* start trimming - simply back to the last real text)
+      m1 == SetThread([m EXCEPT !.out = O!TrimFunctionEnd(m.out, IF a.fnStart = 0 THEN 1 ELSE a.fnStart)], Tail(t))
       \* the caller's expression around the call: the returned value is the variable "$ret" in it
       withRet == IF Tail(t) = <<>> THEN m1
                  ELSE LET c == Head(Tail(t)) IN SetAct(m1, [c EXCEPT !.temps = Put(c.temps, "$ret", v)])
